@@ -83,7 +83,7 @@ inline void on_alarm(int)
 }
 inline int driver_main(int argc, char** argv, const std::function<std::string(const std::vector<std::string>&)>& run_case)
 {
-    int secs = 5;
+    int secs = 20;
     if (const char* e = std::getenv("VERIF_CASE_TIMEOUT")) secs = std::atoi(e);
     std::signal(SIGALRM, on_alarm);
     std::string line;
